@@ -46,7 +46,9 @@ func Setup(root string) *World {
 	w.Multi = filepath.Join(w.D1, "multi.json")
 	w.PreparedB = filepath.Join(root, "outside", "multi-b.json")
 	_ = os.WriteFile(filepath.Join(w.D0, "keep0.json"), spec("keep0", "keep0", "a1"), 0o644) // a1 here is shadowed in state A, visible in state B
-	_ = os.WriteFile(filepath.Join(w.D1, "keep1.json"), spec("keep1", "keep1"), 0o644)
+	// named to sort AFTER the temporary file a writer creates in this directory (spec.*.tmp): a scan
+	// that gives up at a vanished entry loses it
+	_ = os.WriteFile(filepath.Join(w.D1, "zkeep1.json"), spec("keep1", "keep1"), 0o644)
 	_ = os.WriteFile(w.Multi, spec("A", "a1", "a2", "a3"), 0o644)
 	_ = os.WriteFile(w.PreparedB, spec("B", "b1", "b2", "b3"), 0o644)
 	return w
@@ -148,7 +150,7 @@ func All() []Op {
 				return Result{Op: "GetVendorSpecs", Obs: fmt.Sprint(v, paths), Bad: fmt.Sprintf("the slice returned by GetVendorSpecs changed after it was returned (%d entries; other Spec objects or contents)", len(before))}
 			}
 			r := Result{Op: "GetVendorSpecs", Obs: fmt.Sprint(v, paths)}
-			want := []string{"keep0.json:2", "keep1.json:1", "multi.json:3"}
+			want := []string{"keep0.json:2", "multi.json:3", "zkeep1.json:1"}
 			if !eq(v, []string{"vendor.com"}) || !eq(paths, want) {
 				r.Bad = fmt.Sprintf("vendors %v / Spec files %v differ from both states (%v)", v, paths, want)
 			}
